@@ -46,7 +46,7 @@ def extra(c, sp, stats):
 def main(ctx):
     total = 30000 if ctx.thorough else 3000
     static_check(
-        ctx, "static", total, extra="--nopre", judge=judge, extra_stats=extra, spec_opts="--bound", extra_props=("C18dyn", "C18log"),
+        ctx, "static", total, extra="--nopre", judge=judge, extra_stats=extra, spec_opts="--bound", extra_props=("C18dyn", "C18log", "C18pr"),
         more_runs=[("static", 0, "--nopre --exhaustive 3")],
         rule="all 18 library problems x encoders x certificate flag on exhaustive small and generated frameworks; the number of SAT calls per session (= per connected component) and in total is compared with the bound of the property computed by brute force per component (|base| = number of conflict-free / admissible / complete sets of the encoder in use, |PR| = number of preferred extensions): PR <= |base|+|PR|+1, ID <= 2|base|+|PR|+2, SST/STG <= (n+2)|base|+3, CO/ST <= 2; traces replayed on Model.Solvers (same call count by construction of the replay)",
     )
